@@ -160,3 +160,44 @@ Proof.
                 (fun Hr => dec_pad_covers a b w x Hw Hx Hr))).
 Qed.
 Print Assumptions C04_bounds_contain_list1.
+
+(* ---- (2') from the two margin facts to `coverage`, exact arithmetic, away from the 0/360 seam ---- *)
+Theorem C04_coverage_exact_nowrap : forall (decB : list Q) (raB : list (list Q)) (ra dec m mg : Q) (b : bnd)
+                                           (s r : nat) (dec1 ra1 : Q),
+  let nDec := length decB - 1 in
+  let B := nth s raB [] in
+  let n := length B - 1 in
+  mono decB nDec -> mono B n ->
+  getbounds_model decB raB ra dec m mg = Some b ->
+  s < nDec -> (qbnd decB s <= dec1 <= qbnd decB (S s))%Q -> (dec - dec1 < m)%Q -> (dec1 - dec < m)%Q ->
+  r < n -> (qbnd B r <= ra1 <= qbnd B (S r))%Q -> (ra - ra1 < mg)%Q -> (ra1 - ra < mg)%Q ->
+  In (Z.of_nat s, Z.of_nat r) (fill_cells (nRa_of_bounds raB) b).
+Proof. exact coverage_exact_nowrap. Qed.
+Print Assumptions C04_coverage_exact_nowrap.
+
+(* ---- (3) the index arithmetic regenerated from the source on every run (Generated/Chunks.v) is the model's ---- *)
+From PV Require Import Generated.Chunks C04.GenProofs.
+Theorem C04_generated_index_arithmetic :
+  chunks_recognised = true /\
+  (forall nRa d lo hi,
+     row_cells nRa 1 d lo hi =
+       flat_map (fun r => let c := gen_reset_wrap (nRa d) r in if gen_reset_valid (nRa d) c then (d, c) :: nil else nil)
+                (zrange (gen_reset_from lo hi) (Z.to_nat (gen_reset_to lo hi - gen_reset_from lo hi))) /\
+     row_cells nRa 0 d lo hi =
+       flat_map (fun r => let c := gen_fill_wrap (nRa d) r in if gen_fill_valid (nRa d) c then (d, c) :: nil else nil)
+                (zrange (gen_fill_from lo hi) (Z.to_nat (gen_fill_to lo hi - gen_fill_from lo hi)))) /\
+  (forall x lo hi n,
+     gen_gb_dec_index x lo hi (inject_Z (Z.of_nat n)) = cell_index x lo hi n /\
+     gen_gb_ra_index x lo hi (inject_Z (Z.of_nat n)) = cell_index x lo hi n /\
+     gen_get_dec_index x lo hi (inject_Z (Z.of_nat n)) = cell_index x lo hi n /\
+     gen_get_ra_index x lo hi (inject_Z (Z.of_nat n)) = cell_index x lo hi n) /\
+  (forall B x m,
+     (forall c, dec_down B x m (S c) = if gen_dec_down_test x (qbnd B (S c)) m && gen_dec_down_guard (Z.of_nat (S c)) 0
+                                        then dec_down B x m c else S c) /\
+     (forall nDec f c, dec_up B x m nDec (S f) c =
+                       if gen_dec_up_test x (qbnd B (S c)) m && gen_dec_up_guard (Z.of_nat c) (Z.of_nat nDec)
+                       then dec_up B x m nDec f (S c) else c) /\
+     (forall c, ra_down B x m (S c) = if gen_ra_down_test x (qbnd B (S c)) m then ra_down B x m c else Z.of_nat (S c)) /\
+     (forall n f c, ra_up B x m n (S f) c = if (c <? n)%nat && gen_ra_up_test x (qbnd B (S c)) m then ra_up B x m n f (S c) else Z.of_nat c)).
+Proof. exact generated_index_arithmetic. Qed.
+Print Assumptions C04_generated_index_arithmetic.
